@@ -423,7 +423,9 @@ class HostConnection(object):
         conn = self._get_connection()
         if conn.orphaned_threshold_reached:
             with self._lock:
-                if not self._is_replacing:
+                # conn was read without the lock: it may have been replaced already, and replacing it once more
+                # would overwrite (and never close) the connection the first replacement published
+                if not self._is_replacing and conn is self._connection:
                     self._is_replacing = True
                     self._session.submit(self._replace, conn)
                     log.debug(
